@@ -149,7 +149,9 @@ def _h_junction(tr, e, want):
 def _tree_callee_for(tr, e):
     """(callee spec, normalised positional call) of a call `f(T, …)` of a translated whole-tree function on a tree that is column variables"""
     f = ast.unparse(e.func)
-    cands = ([TREE_CALLEES[f]] if f in TREE_CALLEES else []) + TREE_CALLEE_INSTANCES.get(f, [])
+    if f not in TREE_CALLEE_INSTANCES:
+        return None                                     # a function with ONE translation: the built-in rule of translate_algo.py applies
+    cands = ([TREE_CALLEES[f]] if f in TREE_CALLEES else []) + [c for c in TREE_CALLEE_INSTANCES[f] if c != TREE_CALLEES.get(f)]
     if not cands or not e.args or ast.unparse(e.args[0]) not in tr.spec.tree_cols or any(k.arg is None for k in e.keywords):
         return None
     mine = set(tr.spec.tree_cols[ast.unparse(e.args[0])])
